@@ -1,0 +1,45 @@
+//go:build verif
+
+package pool
+
+// Verification hooks (build tag "verif" only).
+//
+// yield(point, worker) is called at every synchronisation point of pool.go, i.e. immediately
+// before each operation on shared state (channel send/receive, atomic load/add on the counter,
+// write of a result slot, call of the search function). A test harness can install VerifYield
+// to park the calling goroutine there and so force a chosen interleaving.
+//
+// worker is the index of the worker goroutine (0 .. workerCount-1), or -1 for the goroutine
+// calling Search / Parallelize. point identifies the operation that comes next:
+//
+//	worker  0  receive of the next command (top of `for c := range commands`)
+//	        1  c.results[c.i] = c.f(c.i)                     (Parallelize command)
+//	        2  atomic.AddInt64(c.ctr, -1)                    (Parallelize command)
+//	        3  atomic.LoadInt64(ctr) > 0 ?                   (Search command, loop test)
+//	        4  res := f(0)                                   (Search command)
+//	        5  i := atomic.AddInt64(ctr, -1)                 (Search command)
+//	        6  if i >= 0 { results[i] = res }                (Search command)
+//	        7  c.ctrChanged <- struct{}{}                    (notification)
+//	        8  return from worker (commands was closed)
+//	caller 10  select { commands <- cmd / <-ctrChanged }
+//	       11  test of the wait loop (done < number of commands sent)
+//	       12  <-ctrChanged in the wait loop
+//	       13  return results
+var VerifYield func(point int, worker int)
+
+func yield(point, worker int) {
+	if f := VerifYield; f != nil {
+		f(point, worker)
+	}
+}
+
+// VerifExpose, if set, is handed the counter and the result slice of every Search / Parallelize
+// call on a non-nil pool when the call starts, so that a harness can observe them while the
+// call is in progress.
+var VerifExpose func(ctr *int64, results []interface{})
+
+func expose(ctr *int64, results []interface{}) {
+	if f := VerifExpose; f != nil {
+		f(ctr, results)
+	}
+}
